@@ -156,6 +156,17 @@ def c14(run):
                            "error?, value) is validated by TLC against JsTrace (the outcome table of JsWatchdog); states/transitions: "
                            "JsWatchdog model-checked for deadlock freedom, Returns (liveness under weak fairness) and Outcome per class")
 
+def c15(run):
+    return engine_prop(run, ["MC_rules.cfg"],
+        [dict(profile="cron", n=n(run, 40, 500), extra=["-via", "system", "-check", "off", "-cron", "rec"], label="cron-rec"),
+         dict(profile="cron", n=n(run, 36, 400), extra=["-via", "system", "-check", "off", "-cron", "all", "-store", "bolt"], label="cron-all-bolt")],
+        "seeded histories over two locations that share rule ids: scheduled (one-shot, recurring) and ordinary rules added, replaced by "
+        "each other and by plain facts, removed, cascade-deleted, cleared, disabled; ticks ({\"trigger!\": id}) delivered for registered, "
+        "removed and never-registered ids; restarts of the whole System over Bolt storage. Through sys.System with a recording cron service "
+        "(persistent / not persistent) and with the built-in cron (job count). After every call TLC checks the registrations against the "
+        "scheduled rules Engine holds (every existing scheduled rule registered; strictly nothing else) and what each tick evaluated, "
+        "executed and removed")
+
 def c17(run):
     return engine_prop(run, ["MC_parents.cfg"],
         [dict(profile="system", n=n(run, 72, 900), extra=["-via", "system"])],
@@ -281,7 +292,7 @@ def c03(run):
                            "indexed and linear state, through Location.Query; TLC compares the returned bindings as a BAG with Query!Eval; "
                            "states/transitions: QueryMC (algebraic laws of Eval on all trees up to depth 1/2 x all fact subsets)")
 
-CHECKS = {"C06": c06, "C14": c14, "C17": c17, "C18": c18, "C01": c01, "C03": c03, "C04": c04, "C05": c05, "C02": c02, "C07": c07, "C08": c08, "C09": c09, "C10": c10, "C19": c19, "C20": c20}
+CHECKS = {"C15": c15, "C06": c06, "C14": c14, "C17": c17, "C18": c18, "C01": c01, "C03": c03, "C04": c04, "C05": c05, "C02": c02, "C07": c07, "C08": c08, "C09": c09, "C10": c10, "C19": c19, "C20": c20}
 
 def replay(run, path):
     rejected, out = run.validate("EngineTrace.tla", "EngineTrace.cfg", path, "replay")
